@@ -119,8 +119,9 @@ pub fn text_from_keys(rng: &mut Rng, keys: &[String], max_parts: usize) -> Strin
             9 => {
                 // prolonged sound marks
                 s.push_str(rng.s(KATA));
+                // incl. marks that an earlier plugin resizes (full-width hyphen, half-width prolonged mark)
                 for _ in 0..rng.below(4) {
-                    s.push_str(rng.s(&["ー", "-", "〜", "⁓", "〰"]));
+                    s.push_str(rng.s(&["ー", "-", "〜", "⁓", "〰", "－", "ｰ", "－"]));
                 }
             }
             _ => s.push_str(&noise(rng, 4)),
